@@ -46,6 +46,73 @@ fn values() -> Vec<Rc<Val>> {
     ]
 }
 
+/// hostile documents for the importers (memory safety of the decoders; results are printed, not judged)
+fn documents() -> Vec<(&'static str, Vec<u8>)> {
+    let mut v: Vec<(&'static str, Vec<u8>)> = Vec::new();
+    for d in [
+        "a: 1\nb: [1, 2, {c: d}]\n",
+        "&a [1, 2]\n",
+        "x: &anc {k: v}\ny: *anc\nz: *anc\n",
+        "<<: {a: 1}\nb: 2\n",
+        "? [complex, key]\n: value\n",
+        "--- |\n  literal\n   more\n...\n--- >-\n  folded\n  text\n",
+        "a: !!binary aGk=\nb: !!set {x, y}\nc: !custom tag\n",
+        "{a: [1, {b: [2, {c: [3]}]}]}",
+        "a: 'it''s'\nb: \"esc \\x41 \\u00e9 \\U0001F600 \\n\"\n",
+        "- - - - - - - - - - deep\n",
+        "a: 0x1F\nb: 0o17\nc: 1_000\nd: .inf\ne: -.INF\nf: .nan\ng: 1e400\nh: 99999999999999999999\n",
+        "a: [unclosed\n",
+        "\t- tab\n",
+        "a: b: c\n",
+        "*undefined\n",
+        "%YAML 1.1\n%TAG ! tag:x,2000:\n--- !foo bar\n",
+        "",
+        "\u{feff}a: 1\n",
+    ] {
+        v.push(("yaml", d.as_bytes().to_vec()));
+    }
+    v.push(("yaml", vec![0xff, 0xfe, 0x61, 0x00]));
+    v.push(("yaml", vec![b'a', b':', b' ', 0xc3]));
+    for d in [
+        r#"{"a": 1, "a": 2}"#,
+        "[1, 2.5, -0.0, 1e400, 123456789012345678901234567890, 9223372036854775808]",
+        r#"{"s": "\ud83d\ude00 \ud800 \u0000"}"#,
+        r#"{"a": [[[[[[[[[[[[[[[[[[[[]]]]]]]]]]]]]]]]]]]]}"#,
+        r#"{"a": tru"#,
+        "nul",
+        "\"unterminated",
+        "[1,]",
+        "",
+        "  42  ",
+    ] {
+        v.push(("json", d.as_bytes().to_vec()));
+    }
+    v.push(("json", vec![b'"', 0xff, b'"']));
+    for d in [
+        "a = 1\nb = 1.5\nc = \"s\"\nd = [1, 2]\n[t]\nk = true\n[[arr]]\nx = 1\n[[arr]]\nx = 2\n",
+        "d = 1979-05-27T07:32:00Z\nl = 07:32:00\n",
+        "a.b.c = 1\na.b.d = 2\n\"quoted key\" = 3\n'lit' = 4\n",
+        "s = \"\"\"multi\nline\\\n   trimmed\"\"\"\nl = '''raw\n'''\n",
+        "i = 0xDEADBEEF\no = 0o755\nb = 0b1101\nu = 1_000\nf = inf\nn = nan\nbig = 9223372036854775808\n",
+        "a = 1\na = 2\n",
+        "[t]\n[t]\n",
+        "a = [1, \"two\", [3]]\n",
+        "a = {x = 1, y = {z = [1, 2]}}\n",
+        "a = \"\\u00e9 \\U0001F600 \\e\"\n",
+        "= 1\n",
+        "a = \n",
+        "",
+    ] {
+        v.push(("toml", d.as_bytes().to_vec()));
+    }
+    v.push(("toml", vec![b'a', b'=', b'"', 0xff, b'"']));
+    for d in ["aGVsbG8=", "aGVsbG8", "!!!!", "", "-_-_", "+/+/"] {
+        v.push(("b64", d.as_bytes().to_vec()));
+        v.push(("b64urlsafe", d.as_bytes().to_vec()));
+    }
+    v
+}
+
 fn main() {
     let args: Vec<String> = std::env::args().collect();
     let shard: usize = args.get(1).and_then(|x| x.parse().ok()).unwrap_or(0);
@@ -98,5 +165,18 @@ fn main() {
         let b64 = imps.get_importer("b64").unwrap();
         let _ = b64.import(&[0xff, 0xfe, idx as u8]);
     }
-    println!("MIRI-CONV done n={} mismatches={}", n, mismatches);
+    let mut imports = 0;
+    for (idx, (fmt, bytes)) in documents().into_iter().enumerate() {
+        if idx % nshards != shard {
+            continue;
+        }
+        if let Some(imp) = imps.get_importer(fmt) {
+            imports += 1;
+            match imp.import(&bytes) {
+                Ok(v) => println!("doc {} {}: ok {}", idx, fmt, v.type_name()),
+                Err(e) => println!("doc {} {}: rejected: {}", idx, fmt, format!("{}", e).lines().next().unwrap_or("")),
+            }
+        }
+    }
+    println!("MIRI-CONV done n={} mismatches={} imports={}", n, mismatches, imports);
 }
